@@ -79,6 +79,36 @@ CHECKS = {
         text="All documents of up to 2/3 content units over 59 units x header variants (missing / duplicated / undecodable attributes, non-numeric weights, stray data, unknown elements, mismatched end tags, truncation) must yield Ok or Err, with Err where an element cannot be represented and, for Ok, exactly the node and edge elements under the C01 rules with the declared directedness; every deletion / duplication / truncation / bit flip of generated documents must yield Ok or Err.",
         note="Bounded document length; renderer from tokens to text is trusted; panics are observed through catch_unwind, aborts and hangs through the child-process watchdog.",
         design="4/C19"),
+    "C11": dict(
+        level="model_checking",
+        technique="exact rational definitions of triangles / clustering (undirected, Fagiolo directed, weighted geometric-mean with perfect-cube weights) / transitivity / generalized degree / square clustering in TLA+; TLC-enumerated families + random graphs replayed for the whole graph and every node subset; TLC trace monitor",
+        text="Every function of the clustering module on every enumerated / random single-edge graph (directed and undirected, weighted and not, self-loops, isolated and degree-one nodes), for node_names = None and for every non-empty subset, is compared with the exact definition; WrongMethod guards and the [0,1] range are checked.",
+        note=ALG_NOTE + " Weighted forms use weights that are perfect cubes so that cube roots are rational.", design="4/C11"),
+    "C12": dict(
+        level="model_checking",
+        technique="IsPartition and exact rational Newman modularity defined in TLA+; all families of <= 3 subsets (nodes + a foreign name) on TLC-enumerated graphs, random and perturbed partitions; TLC trace monitor",
+        text="is_partition and modularity (weighted / unweighted, resolutions 1, 1/2, 2; directed and undirected; parallel edges and self-loops) are compared with the definitions for every family, including overlap-plus-omission families whose sizes cancel and families with repeated sets.",
+        note=ALG_NOTE, design="4/C12"),
+    "C13": dict(
+        level="model_checking",
+        technique="TLA+ contract of the Louvain result (nested partitions into non-empty sets, exact modularity monotonicity) judged by a TLC trace monitor; every call runs in a watchdog child process so that non-termination is an observed outcome",
+        text="louvain_partitions / louvain_communities for several seeds, resolutions and thresholds on every enumerated graph and on random graphs of all kinds must return within the deadline a non-empty list of levels, each a partition into non-empty sets, each coarsening the previous one, with exact rational modularity non-decreasing on single-edge graphs and the first level at least as good as singletons.",
+        note="Termination is observed (10 s deadline for calls that normally take < 5 ms), not proved; graphs up to 9 / 14 nodes. Trusted: watchdog, canonicalisation, TLC.", design="4/C13"),
+    "C17": dict(
+        level="exploration",
+        technique="repeated execution (in process, fresh processes, rayon pool sizes) of seeded calls on tie-heavy graphs; all results of one argument tuple must be identical (TLC monitor MonitorRepro)",
+        text="Each argument tuple of louvain_partitions / louvain_communities / fast_gnp_random_graph is evaluated 30/300 times in one process, in 5/20 fresh processes and under pools of 1, 4 and 16 threads on paths, cycles, complete graphs, stars, barbell, grid and cube graphs (directed and undirected) and random graphs; non-randomised suites are run three times per graph.",
+        note="Hash-order dependence shows only with some probability per call; it is sampled by repetition, not enumerated. The specification part is the equality requirement.", design="4/C17"),
+    "C18": dict(
+        level="other",
+        technique="TLA+ contract (thresholds, residual bound K = 2n(1+D) derived in the module, max_iter monotonicity protocol) applied by a TLC trace monitor to integer-encoded floating-point quantities computed by the harness",
+        text="For max_iter in {1,2,3,5,20,100,1000} x tolerance in {1e-12..1e-2} x weighted/unweighted on enumerated and random single-edge graphs: Ok results have one entry per node, are non-negative, have unit Euclidean norm (1e-9) and satisfy the fixed-point residual bound of the documented left-multiplication step; outcomes are monotone in max_iter; errors are PowerIterationFailedConvergence.",
+        note="TLC has no reals or square roots: norm and residual are evaluated in f64 by the harness (trusted projection); only thresholds, K and the protocol are decided by the specification.", design="4/C18, 6"),
+    "C20": dict(
+        level="model_checking",
+        technique="TLA+ table of allowed outcome classes per public function x graph kind x argument shape (Api!Allowed), applied by a TLC trace monitor to calls on TLC-enumerated degenerate graphs in a dev (overflow-checked) and a release build",
+        text="All public queries and algorithms are called on every enumerated graph with <= 3/4 nodes of all 8 kinds and on random ones, with every existing name and one absent name; the set of outcome classes per (function, shape) must avoid Panic / Hang / Abort and lie in the allowed set (WrongMethod / NodeNotFound / None through the function's own channel).",
+        note="Graphs up to 4-5 nodes; panics observed through catch_unwind, hangs through the watchdog (Louvain). Trusted: the call list in harness/src/api.rs, TLC.", design="4/C20"),
     "C15": dict(
         level="model_checking",
         technique="TLC model checking of Subgraph/Reverse/Reweight/Collapse on the mutation machine + TLC trace monitor on derive events from every state of recorded forests",
